@@ -18,6 +18,10 @@ CLAIMED = {
    text="Bounded model checking of the REPL's completeness test: Kani/CBMC decides, for every text of length <= 8 (quick) / <= 16 (thorough) over the 13 characters the reader treats specially (plus a letter, a digit, a blank), that check_bracket_closed(text) is true exactly when the reader's token stream has closed every list it opened; the harness is appended to a scratch copy, unwinding assertions on, kani::cover witnesses required. The oracle (a one-pass model of the lexer's token boundaries) is itself compared with the real Lexer on every string up to length 5/6 on each run. The suite has no test of repl.rs at all.",
    note="Trusted: Kani/CBMC/cadical, the reference model (validated natively against the real Lexer on 4*10^5 / 5*10^6 strings per run, which decides nothing by itself). Texts the reader rejects lexically are excluded. Outside: the rustyline loop run_with_interpreter (accumulation of lines, printing, history) - I/O, not encodable; characters outside the alphabet on the reader's side (digits/signs/dots/#t etc.); a second harness shows check_bracket_closed itself treats any non-special character like a letter.",
    ref="DESIGN.md section 4 (C18)"),
+ "C03": dict(
+   text="Bounded symbolic model checking of one step of the real mutation primitives from an arbitrary state: the MIR of LexicalScope::{define,get,get_mut,set} is executed from an arbitrary frame forest (every (frame,name) presence bit and value symbolic; chain plus a sibling sharing the root), and z3 decides that set! overwrites exactly the innermost defining cell and nothing else, define touches only its own frame, lookup returns a reference to the innermost cell, unbound => UnboundedSymbol with no change. For vectors the MIR of vector-set!, vector-ref, vector-length, make-vector, vector, ValueReference::{as_ref,as_mut} and the derived Value/ValueReference clone is executed with symbolic length, index (all i32), object and mutability; aliases made by Value::clone and by storing in / fetching from another vector observe the write at k and only there, distinct vectors never, literals reject mutation, bad indices (negative included) are errors that change nothing. One inductive step from an arbitrary state covers histories of any length, which sampled histories cannot.",
+   note="Trusted: rustc MIR semantics; the HashMap, RefCell, Rc, Vec models (std is modelled, not verified; borrow flags and reference counts not modelled); z3. Bounds: 4 frames x 2 names (quick), 4 frames x 3 names and a 4-deep chain (thorough); vectors of length <= 3 / 5; elements are integers (the operations never inspect elements). That the evaluator uses these primitives correctly in whole programs (set! -> set, argument passing -> clone, a fresh frame per call) is only covered at skeleton level by C01/C02.",
+   ref="DESIGN.md section 4 (C03)"),
 }
 NA = {}
 def main():
